@@ -968,15 +968,21 @@ func (c *Conn) handleBdat(arg string) {
 		c.writeResponse(501, EnhancedCode{5, 5, 4}, "Missing chunk size argument")
 		return
 	}
-	if len(args) > 2 {
-		c.writeResponse(501, EnhancedCode{5, 5, 4}, "Too many arguments")
-		return
-	}
-
 	// ParseUint instead of Atoi so we will not accept negative values.
 	size, err := strconv.ParseUint(args[0], 10, 32)
 	if err != nil {
 		c.writeResponse(501, EnhancedCode{5, 5, 4}, "Malformed size argument")
+		return
+	}
+
+	if len(args) > 2 {
+		// The size is known: the chunk of this refused BDAT must be
+		// discarded as well, it must not be interpreted as commands.
+		_, discardErr := io.Copy(ioutil.Discard, io.LimitReader(c.text.R, int64(size)))
+		c.writeResponse(501, EnhancedCode{5, 5, 4}, "Too many arguments")
+		if discardErr != nil {
+			c.Close()
+		}
 		return
 	}
 
